@@ -393,3 +393,25 @@ Example C18_example_c17_copy :
   | _ => False
   end.
 Proof. exact ex17_copy. Qed.
+
+(* ---- partialstruct as an instance of the pipeline's abstract generator (Model/Generators.v): gengo.Execute's
+   per-package loop is [generate_pkg] on the dispatched declarations — an error from `must be struct type` / `need to
+   define type like …` is Execute's failure naming partialstruct and the package (consequence: Props/C02.v
+   C02_partialstruct_error_aborts), a panic is a dead process.  [print_gtype]: the text of the template, a parameter. ---- *)
+Require Gengo.Model.Pipeline Gengo.Proofs.GeneratorsPipe.
+
+Theorem C18_is_pipeline_generator :
+  forall c tracker tin print_gtype (E : Gengo.Model.Pipeline.env) p,
+    let g := partialstruct_gen c tracker tin print_gtype in
+    match generate_pkg (tracker p) (Gengo.Model.Pipeline.pk_path p) c
+            (map (tin p) (Gengo.Proofs.GeneratorsPipe.ps_called c tracker tin print_gtype E p)) [] [] with
+    | OutFile ts _ => Gengo.Model.Pipeline.go_out (Gengo.Model.Pipeline.gen_run E g p) = Gengo.Model.Pipeline.Done /\
+                      Gengo.Model.Pipeline.go_body (Gengo.Model.Pipeline.gen_run E g p) = print_gtypes print_gtype ts /\
+                      Gengo.Model.Pipeline.go_ignore (Gengo.Model.Pipeline.gen_run E g p) = false
+    | OutErr _ => Gengo.Model.Pipeline.go_out (Gengo.Model.Pipeline.gen_run E g p)
+                  = Gengo.Model.Pipeline.Failed (Gengo.Model.Pipeline.EGen (bs "partialstruct") (Gengo.Model.Pipeline.pk_path p))
+    | OutCrash => Gengo.Model.Pipeline.go_out (Gengo.Model.Pipeline.gen_run E g p) = Gengo.Model.Pipeline.Died
+    | OutGeneric => True
+    end.
+Proof. exact Gengo.Proofs.GeneratorsPipe.partialstruct_gen_run. Qed.
+Print Assumptions C18_is_pipeline_generator.
